@@ -101,7 +101,7 @@ STORES = [None, None, None, ["object_id", "geom3"], ["geom5", "geom2"], ["geom5"
 
 def strategy(tier):
     base = st.one_of(cloud_case(), cloud_case(), poly_case(), lattice_case(), mutate_case(), mutate_case())
-    return st.tuples(base, st.sampled_from(STORES)).map(lambda t: dict(t[0], store=t[1]))
+    return st.tuples(base, st.sampled_from(STORES), st.sampled_from([0, 0, 0, 230100, 1000000])).map(lambda t: dict(t[0], store=t[1], tomo_base=t[2]))
 
 
 A1 = {"entry": [[2.54616, 5.11083, 5.730353], [8.538923, 9.564001, 3.377749], [6.229608, 6.787277, 1.110418], [4.690384, 2.070112, 7.364714], [3.46794, 8.013815, 2.112646]],
@@ -176,6 +176,7 @@ def build(case):
         perm = rng.permutation(len(E))
         E, X, tomo = E[perm], X[perm], tomo[perm]
     n = len(E)
+    tomo = tomo + case.get("tomo_base", 0)  # date-coded / six-digit tomogram numbers that differ by 1
     ids = np.random.default_rng(case["ids_seed"]).permutation(np.arange(1, 3 * n + 1))[:n].astype(float) if case["ids_seed"] else np.arange(1, n + 1, dtype=float)
     return E, X, tomo, ids
 
